@@ -302,6 +302,28 @@ EnvLower(ma, pct) == Scale(Sub(I(1), Q(pct, 100)), ma)
 Hma(c, P, Half, Root) == Wma(SubS(Scale(I(2), Wma(c, Half)), Wma(c, P)), Root)
 
 -----------------------------------------------------------------------------
+(* The recorded deviations (known findings): what the code computes INSTEAD of the documented formula, written down so
+   that the check can tell "deviates exactly as recorded" from any other difference - a change to one of these
+   indicators is then still reported although the indicator has a finding. *)
+\* Force index: the price change of t times the volume of t-1
+FiAsCoded(c, v, P) == Ema(MulS(Change(c, 1), Prev(v, 1)), P)
+\* Ulcer index: the square of the mean drawdown instead of the mean of the squares
+UlcerSqAsCoded(c, P) == LET hc == MMax(c, P) IN Map(Sq, Sma(Scale(I(100), DivS(SubS(c, hc), hc)), P))
+\* TSI: the second smoothing is applied first
+TsiAsCoded(c, F, S) == Tsi(c, S, F)
+\* APO / DEMA: the two branches are joined value by value although their warm-ups differ
+ApoAsCoded(c, F, S) == IF S >= F THEN SubS(Prev(Ema(c, F), S - F), Ema(c, S)) ELSE SubS(Ema(c, F), Prev(Ema(c, S), F - S))
+DemaAsCoded(c, P1, P2) == LET e1 == Ema(c, P1) IN SubS(Scale(I(2), Prev(e1, P2 - 1)), Ema(e1, P2))
+\* EMV: the distance moved of t over the box ratio of t-1
+EmvAsCoded(h, l, vu, P) == Sma(DivS(Change(Median(h, l), 1), Prev(DivS(vu, SubS(h, l)), 1)), P)
+\* Aroon: positions since the moving extreme last CHANGED VALUE (helper.Since), rounded to whole numbers
+RoundR(a) == IF IsU(a) THEN U
+             ELSE IF a[1] >= 0 THEN I((2 * a[1] + a[2]) \div (2 * a[2])) ELSE I(-((2 * (-a[1]) + a[2]) \div (2 * a[2])))
+SinceChanged(m, p) == p - MaxI({q \in Lo(m)..p : q = Lo(m) \/ m[q] # m[q - 1]})
+AroonAsCoded(y, P, IsMax) == LET m == IF IsMax THEN MMax(y, P) ELSE MMin(y, P) IN
+                             [p \in DOMAIN m |-> RoundR(Mul(Q(P - SinceChanged(m, p), P), I(100)))]
+
+-----------------------------------------------------------------------------
 (* C15 on the documented formulas: ranges and orderings (positions with a zero denominator are exempt) *)
 RangeOK(a, lo, hi) == \A p \in DOMAIN a : IsU(a[p]) \/ (Le(I(lo), a[p]) /\ Le(a[p], I(hi)))
 \* a >= b wherever both are defined
